@@ -370,4 +370,6 @@ func runC16(c *report.Ctx) {
 	}
 	ruleMaturityPerTemplate(c)
 	ruleAPIOwnerOfStaking(c)
+	ruleMemoGuardField(c)
+	ruleBuilderErrorReturned(c)
 }
